@@ -861,10 +861,16 @@ func (vc *VC) evalCompositeLit(st *State, e *ast.CompositeLit) Term {
 		for i, el := range e.Elts {
 			if kv, ok := el.(*ast.KeyValueExpr); ok {
 				if id, ok := kv.Key.(*ast.Ident); ok {
-					init[id.Name] = vc.evalCopy(st, kv.Value)
+					v := vc.evalCopy(st, kv.Value)
+					for j := 0; j < u.NumFields(); j++ {
+						if u.Field(j).Name() == id.Name {
+							v = vc.convertTo(st, v, vc.typeOf(kv.Value), u.Field(j).Type())
+						}
+					}
+					init[id.Name] = v
 				}
 			} else {
-				init[u.Field(i).Name()] = vc.evalCopy(st, el)
+				init[u.Field(i).Name()] = vc.convertTo(st, vc.evalCopy(st, el), vc.typeOf(el), u.Field(i).Type())
 			}
 		}
 		return vc.allocStruct(st, t, init)
